@@ -22,8 +22,9 @@ from vc import extract
 from vc.report import bounded
 
 P, D, PAT, PAT2 = "d/f.txt", "d/", "d/*.txt", "*/f.txt"
-MENU = [("static", P), ("out", P), ("vol", P), ("amend_out", P), ("amend_vol", P), ("tree", D), ("glob", PAT),
-        ("glob", PAT2)]
+MENU = [("static", P), ("out", P), ("vol", P), ("amend_out", P), ("amend_vol", P), ("tree", D), ("amender_tree", D),
+        ("glob", PAT), ("glob", PAT2)]
+TREES = ("tree", "amender_tree")
 PRODUCTS = ("out", "vol", "amend_out", "amend_vol")
 
 
@@ -32,8 +33,8 @@ def claimant(decl, creator):
     kind = decl[0]
     if kind in ("out", "vol"):
         return ("own-step", id(decl))  # a step defined for this declaration alone
-    if kind in ("amend_out", "amend_vol"):
-        return ("amender", creator)
+    if kind in ("amend_out", "amend_vol", "amender_tree"):
+        return ("amender", creator)  # the step that amends on behalf of the creator (it also registers amender_tree)
     return ("creator", creator)
 
 
@@ -50,11 +51,11 @@ def conflicting(a, ca, b, cb, same_object):
             return None  # the same step defined twice: a duplicate step, not decided here
         same_claimant = (claimant(a, ca)[0] != "own-step" and claimant(a, ca) == claimant(b, cb))
         return not (same_claimant and role(a) == role(b))
-    if "tree" in (ka, kb) and (ka in files or kb in files):
-        t, f, ct, cf = (a, b, ca, cb) if ka == "tree" else (b, a, cb, ca)
-        return not (f[0] == "static" and ct == cf)
-    if ka == "tree" and kb == "tree":
-        return ca != cb
+    if (ka in TREES or kb in TREES) and (ka in files or kb in files):
+        t, f, ct, cf = (a, b, ca, cb) if ka in TREES else (b, a, cb, ca)
+        return not (f[0] == "static" and claimant(t, ct) == claimant(f, cf))
+    if ka in TREES and kb in TREES:
+        return claimant(a, ca) != claimant(b, cb)
     if "glob" in (ka, kb) and (ka in PRODUCTS or kb in PRODUCTS):
         return True  # both patterns of the menu match d/f.txt
     return False
@@ -119,6 +120,13 @@ class _Hist:
                 wf.amend_step(st, ran_concurrently=lambda a, b: False, **kw)
             elif kind == "tree":
                 wf.register_static_tree(creator, arg)
+            elif kind == "amender_tree":
+                label = f"amender-{tag[1:] if tag[:1] in '12' else tag}"
+                st = wf.find(Step, label)
+                if st is None or st.is_detached():
+                    wf.define_step(creator, label)
+                    st = wf.find(Step, label)
+                wf.register_static_tree(st, arg)
             elif kind == "glob":
                 wf.register_nglob(creator, m["nglob"].NamedGlob(arg))
             else:
@@ -194,8 +202,8 @@ def _recycle(m, x, y):
 
 
 @bounded("declaration_histories", props=["C08"],
-         bound="exhaustive over a menu of 8 declarations (static / output / volatile output / amended output / amended "
-               "volatile output on d/f.txt, static tree d/, globs d/*.txt and */f.txt) and 2 creators: every ordered pair "
+         bound="exhaustive over a menu of 9 declarations (static / output / volatile output / amended output / amended "
+               "volatile output on d/f.txt, static tree d/ by the creator and by its amending step, globs d/*.txt and */f.txt) and 2 creators: every ordered pair "
                "in both orders against the property's conflict predicate, every declaration repeated by its creator, and every pair (X by a sub-plan's step, Y by the plan) "
                "through a plan rerun with full recycling, against the same plan from scratch; real Workflow, in-memory "
                "database")
